@@ -120,6 +120,38 @@ class Scratch:
         return False
 
 
+class Cwd:
+    """Temporarily change the working directory (None = leave it)."""
+
+    def __init__(self, d):
+        self.d, self.old = d, None
+
+    def __enter__(self):
+        if self.d is not None:
+            self.old = os.getcwd()
+            os.chdir(self.d)
+        return self
+
+    def __exit__(self, *a):
+        if self.old is not None:
+            os.chdir(self.old)
+        return False
+
+
+ROOT_SPELLINGS = {0: "absolute", 1: "absolute + trailing separator", 2: "trailing separator on every second root only",
+                  3: "relative ./name (working directory = parent)", 4: "relative name + trailing separator"}
+
+
+def spell_root(root, r, spell, base):
+    if spell == 1 or (spell == 2 and r % 2 == 0):
+        return root + os.sep
+    if spell == 3:
+        return "." + os.sep + os.path.relpath(root, base)
+    if spell == 4:
+        return os.path.relpath(root, base) + os.sep
+    return root
+
+
 def spy_selftest(R, sc):
     p = os.path.join(sc.dir, "spy-selftest")
     with open(p, "w") as f:
@@ -832,8 +864,9 @@ def check_populations(case, R):
 
     subsets = [list(x) for x in case[0]]
     mode, form, rev = case[1], case[2], bool(case[3])
+    spell = int(case[4]) if len(case) > 4 else 0
     nroots = len(subsets)
-    with Scratch() as sc:
+    with Scratch() as sc, Cwd(sc.dir if spell in (3, 4) else None):
         spy_selftest(R, sc)
         roots, orders = [], []
         for r, fs in enumerate(subsets):
@@ -847,7 +880,7 @@ def check_populations(case, R):
         same_lists = all(o == orders[0] for o in orders)
         labels = [f"L{r}" for r in range(nroots)]
         ctx = lambda: (f"roots={[[UNIVERSE[f] for f in o] for o in orders]} (walk order) mode={mode} arguments-as={form}")  # noqa: E731
-        R.state(subsets, mode)
+        R.state(subsets, mode, spell)
         if not inter:
             R.trivial()
         kw = {"intersect": {}, "plain": {"intersect": False}, "check_same": {"intersect": False, "check_same": True}}[mode]
@@ -856,15 +889,18 @@ def check_populations(case, R):
         L = sum(lens)
         equal = all(x == lens[0] for x in lens)
 
+        # the same directories, spelled the way callers spell them (trailing separator, relative to the working directory)
+        lib_roots = [spell_root(x, r, spell, sc.dir) for r, x in enumerate(roots)]
+
         def construct():
             if form == "list":
-                return Populations.from_swc(list(roots), **kw)
+                return Populations.from_swc(list(lib_roots), **kw)
             if form == "tuple":
-                return Populations.from_swc(tuple(roots), labels=list(labels), **kw)
+                return Populations.from_swc(tuple(lib_roots), labels=list(labels), **kw)
             if form == "gen":
-                return Populations.from_swc((x for x in roots), labels=(x for x in labels), **kw)
+                return Populations.from_swc((x for x in lib_roots), labels=(x for x in labels), **kw)
             assert mode == "plain"
-            pops = [Population.from_swc(x) for x in roots]
+            pops = [Population.from_swc(x) for x in lib_roots]
             if form == "ctor-list":
                 return Populations(pops)
             return Populations((p for p in pops), labels=(x for x in labels))  # ctor-gen
@@ -1522,6 +1558,14 @@ def spaces(tier, seed):
                 if not quick:
                     yield [[a, b], "plain", "ctor-list", 1]
                     yield [[a, b], "intersect", "tuple", 1]
+        for a in subs:  # root spellings
+            for sp in (1, 3):
+                yield [[a], "plain", "list", 0, sp]
+            for b in subs:
+                for sp in (1, 2, 3, 4):
+                    yield [[a, b], "intersect", "list", 0, sp]
+                    if not quick or sp in (2, 3):
+                        yield [[a, b], "plain", "list", 0, sp]
         subs3 = [list(x) for x in S.subsets(tu)]
         for a in subs3:
             for b in subs3:
@@ -1535,7 +1579,8 @@ def spaces(tier, seed):
     out.append(Space.of("populations", gen_populations, check_populations,
                         bounds={"pair_universe": [UNIVERSE[f] for f in pu], "triple_universe": [UNIVERSE[f] for f in tu], "modes": list(MODES),
                                 "arguments_as": ["list", "tuple", "gen", "ctor-list", "ctor-gen"], "access_orders": ["rows-first", "chain-first"],
-                                "creation_order": "second root's files created in the same / the reverse order"}))
+                                "creation_order": "second root's files created in the same / the reverse order",
+                                "root_spellings": ROOT_SPELLINGS}))
 
     # two populations alive at once
     tf = [0, 2] if quick else [0, 2, 1]
